@@ -302,9 +302,11 @@ func VerifH_C16_order_insensitive() {
 			steps: []tStep{
 				{id: "a", fields: map[string]any{"input": verifStepInput(vx("input"))}},
 				{id: "b", fields: map[string]any{
-					"input":    map[any]any{"x": vx("steps", "a", "outputs", "success", "v"), "y": &infer.OptionalExpression{Expr: vx("steps", "a", "outputs", "error"), WaitForCompletion: true}},
+					"input": map[any]any{"x": vx("steps", "a", "outputs", "success", "v"), "y": &infer.OptionalExpression{Expr: vx("steps", "a", "outputs", "error"), WaitForCompletion: true},
+						"z": vx2(vx("steps", "a", "outputs", "success", "flag"), vx("steps", "d", "outputs", "success", "v"))},
 					"wait_for": vx("steps", "a", "outputs"),
 				}},
+				{id: "d", fields: map[string]any{"input": verifStepInput(vx("input"))}},
 				{id: "c", fields: map[string]any{"input": map[any]any{"x": &infer.OneOfExpression{Discriminator: "kind", Options: map[string]any{
 					"p": map[any]any{"v": vx("steps", "a", "outputs", "success", "v")},
 					"q": map[any]any{"v": vx("steps", "b", "outputs", "success", "v")},
